@@ -37,6 +37,7 @@ import (
 	"path/filepath"
 	"sort"
 	"strings"
+	"sync"
 	"testing"
 	"time"
 
@@ -64,6 +65,10 @@ type gReq struct {
 	Born string `json:"born"`
 	Ans  string `json:"ans"`
 	Pipe string `json:"pipe"`
+	// gap C17-r3-2 (sentinel family, sentinel_test.go): the listener the request came in on ("any": the driver
+	// rotates udp/tcp/doh/doq itself) and the source port class ("zero" | "eph")
+	Tr   string `json:"tr"`
+	Port string `json:"port"`
 }
 
 type gOutcome struct {
@@ -74,6 +79,8 @@ type gOutcome struct {
 	ViewSel int      `json:"viewSel"`
 	Touched []string `json:"touched"`
 	Allowed bool     `json:"allowed"`
+	// what the model says ch.Writer.Internal() reports for this request (a client: never, by the statement)
+	Internal bool `json:"internal"`
 }
 
 type gateInput struct {
@@ -83,6 +90,9 @@ type gateInput struct {
 	Tail        string     `json:"tail"`
 	Variants    int        `json:"variants"`
 	FullConfigs int        `json:"fullConfigs"`
+	// Family "sent": the cases come from the sentinel family of Gate.tla (MC_Gate.tla SNets / SSrcs): concrete
+	// networks and sources at and around 127.0.0.255, see sentinel_test.go
+	Family string `json:"family"`
 }
 
 func cfgKey(o *gOutcome) string {
@@ -124,6 +134,9 @@ type concReq struct {
 	// Cookie: 16 hex digits of a DNS client cookie carried in an OPT ("" = no OPT): the client limiter in front of
 	// or behind the gate remembers cookies and answers a changed one with BADCOOKIE -- never to a denied source
 	Cookie string `json:"cookie,omitempty"`
+	// ID: the DNS message ID (0 = the fixed 0x1717).  The socket replay gives every exchange its own, and the probes
+	// count per ID, so a datagram that arrives late cannot be booked to the next exchange.
+	ID uint16 `json:"id,omitempty"`
 }
 
 type gateReplay struct {
@@ -227,6 +240,28 @@ type counter struct {
 	name     string
 	n        int
 	internal int
+	ids      idCount // per DNS message ID (read by the socket replay, whose requests run on the listeners' goroutines)
+}
+
+// idCount counts by DNS message ID under a lock.
+type idCount struct {
+	mu sync.Mutex
+	m  map[uint16]int
+}
+
+func (c *idCount) inc(id uint16) {
+	c.mu.Lock()
+	if c.m == nil {
+		c.m = map[uint16]int{}
+	}
+	c.m[id]++
+	c.mu.Unlock()
+}
+
+func (c *idCount) get(id uint16) int {
+	c.mu.Lock()
+	defer c.mu.Unlock()
+	return c.m[id]
 }
 
 func (c *counter) Name() string { return c.name }
@@ -234,6 +269,9 @@ func (c *counter) ServeDNS(ctx context.Context, ch *middleware.Chain) {
 	c.n++
 	if ch.Writer.Internal() {
 		c.internal++
+	}
+	if ch.Request != nil {
+		c.ids.inc(ch.Request.ID())
 	}
 	ch.Next(ctx)
 }
@@ -243,6 +281,7 @@ type answerer struct {
 	name string
 	only string
 	n    int
+	ids  idCount
 	q    middleware.Queryer
 	pq   middleware.Queryer
 }
@@ -256,6 +295,7 @@ func (a *answerer) ServeDNS(ctx context.Context, ch *middleware.Chain) {
 	if req == nil {
 		return
 	}
+	a.ids.inc(req.Id)
 	if a.only != "" && dns.CanonicalName(req.Question[0].Name) != a.only {
 		ch.Next(ctx)
 		return
@@ -293,6 +333,18 @@ func (e *env) snapshot() map[string]int {
 	}
 	if e.cache != nil {
 		m["cacheStub"] = e.cache.n
+	}
+	return m
+}
+
+// snapshotID: how often each probe ran for the request with this DNS message ID.
+func (e *env) snapshotID(id uint16) map[string]int {
+	m := map[string]int{"tail": e.tail.ids.get(id)}
+	for k, p := range e.probes {
+		m[k] = p.ids.get(id)
+	}
+	if e.cache != nil {
+		m["cacheStub"] = e.cache.ids.get(id)
 	}
 	return m
 }
@@ -418,6 +470,9 @@ func (rq *concReq) msg() *dns.Msg {
 	m.SetQuestion(rq.Qname, rq.Qtype)
 	m.Question[0].Qclass = rq.Class
 	m.Id = 0x1717
+	if rq.ID != 0 {
+		m.Id = rq.ID
+	}
 	if rq.Cookie != "" {
 		m.SetEdns0(1232, false)
 		o := m.IsEdns0()
@@ -550,13 +605,24 @@ func judgeClient(res *vh.Result, e *env, c *concCfg, rq *concReq, warm []string,
 		res.Skip("the chain did not run for %+v (front probe %d)", rq, d["front"])
 		return
 	}
+	// (gap C17-r3-2) a peer 127.0.0.255 with source port 0 is the address sentinel of a synthesised internal query
+	// (responseWriter.Reset).  On a writer DOUBLE that is the legacy convention for an internal writer (plugins, the
+	// repository's own tests), not a client: compared with the model, never judged.  Whether a LISTENER can be handed
+	// such a peer by the network is decided on real sockets (TestGateSockets: a raw socket sends the datagram).
+	if rq.isSentinelPort0() {
+		res.Count("legacy_sentinel_writer", 1)
+		if model != nil && model.Internal && d["afterACL"] != 1 {
+			res.DriftNote("model: a %s writer double with peer %s:0 reports Internal() and passes the gate, the code stopped it", rq.Proto, rq.Src)
+		}
+		return
+	}
 	rp := gateReplay{Kind: "gate", Level: e.level, Cfg: *c, Req: *rq, Warm: warm, Model: model}
 	key := func(what string) string {
 		return fmt.Sprintf("gate|%s|%s|acl=%s|views=%d|src=%s/%d|%s|%s|%s", e.level, what,
 			strings.Join(c.AccessList, ","), len(c.Views), rq.Src, rq.Form, rq.Proto, rq.Born, rq.Qname)
 	}
-	desc := fmt.Sprintf("[%s chain, %s %s-born, source %s (%d-byte), access list %q, question %s %s]",
-		e.level, rq.Proto, rq.Born, rq.Src, rq.Form, c.AccessList, rq.Qname, dns.TypeToString[rq.Qtype])
+	desc := fmt.Sprintf("[%s chain, %s %s-born, source %s (%d-byte) port %d, access list %q, question %s %s]",
+		e.level, rq.Proto, rq.Born, rq.Src, rq.Form, rq.Port, c.AccessList, rq.Qname, dns.TypeToString[rq.Qtype])
 
 	if !allowed {
 		res.Count("denied", 1)
@@ -619,6 +685,7 @@ func judgeClient(res *vh.Result, e *env, c *concCfg, rq *concReq, warm []string,
 // ---- concretisation -----------------------------------------------------------------
 
 type conc struct {
+	sent   bool // sentinel family: fixed concrete networks and sources (sentinel_test.go)
 	r      *rand.Rand
 	v4net  netip.Prefix
 	v6net  netip.Prefix
@@ -737,6 +804,9 @@ func (c *conc) netString(class string) string {
 
 func (c *conc) cfg(o *gOutcome) concCfg {
 	var cc concCfg
+	if c.sent {
+		return c.sentCfg(o)
+	}
 	acl := append([]string(nil), o.Acl...)
 	sort.Strings(acl)
 	c.r.Shuffle(len(acl), func(i, j int) { acl[i], acl[j] = acl[j], acl[i] })
@@ -764,6 +834,9 @@ func (c *conc) cfg(o *gOutcome) concCfg {
 var protos = []string{"udp", "tcp", "doh", "doq"}
 
 func (c *conc) req(q *gReq, n int, proto string) concReq {
+	if c.sent {
+		return c.sentReq(q, n)
+	}
 	class := q.Src
 	form := 0
 	switch class {
@@ -823,7 +896,7 @@ func TestGateHandlers(t *testing.T) {
 	n := 0
 	for _, k := range keys {
 		for v := 0; v < in.Variants; v++ {
-			cn := newConc(r)
+			cn := newConcFor(r, in.Family)
 			cc := cn.cfg(groups[k][0])
 			e := handlerEnv(&cc, scratch)
 			for _, o := range groups[k] {
@@ -834,11 +907,14 @@ func TestGateHandlers(t *testing.T) {
 				if !vh.Thorough() { // quick tier: two of the four transports per case, rotating
 					ps = []string{protos[n%4], protos[(n+2)%4]}
 				}
+				if o.Req.Tr != "" && o.Req.Tr != "any" { // the model fixed the transport
+					ps = []string{o.Req.Tr}
+				}
 				for _, proto := range ps {
 					n++
 					rq := cn.req(&o.Req, n, proto)
 					judgeClient(res, e, &cc, &rq, nil, o)
-					res.Case(fmt.Sprintf("h:%s|%s|%s|%s|%s", k, o.Req.Src, o.Req.Born, o.Req.Ans, proto))
+					res.Case(fmt.Sprintf("h:%s|%s|%s|%s|%s|%s", k, o.Req.Src, o.Req.Born, o.Req.Ans, proto, o.Req.Port))
 				}
 			}
 		}
@@ -1001,11 +1077,14 @@ func runDefaultConfig(res *vh.Result, in *gateInput, cn *conc, cc *concCfg, case
 			proto := protos[cn.r.Intn(len(protos))]
 			rq := cn.req(&o.Req, *n, proto)
 			judgeClient(res, e, cc, &rq, warm, o)
-			res.Case(fmt.Sprintf("d:%s|%s|%s|%s", cfgKey(o), o.Req.Src, o.Req.Born, o.Req.Ans))
+			res.Case(fmt.Sprintf("d:%s|%s|%s|%s|%s|%s", cfgKey(o), o.Req.Src, o.Req.Born, o.Req.Ans, o.Req.Tr, o.Req.Port))
 			if !o.Allowed {
 				// no later-visible state: the denied question is still a cache miss afterwards
 				if rq.Qname != warmName {
 					before := e.tail.n
+					if rq.isSentinelPort0() {
+						continue // a legacy internal writer double, not a client (see judgeClient)
+					}
 					if _, err := e.internal("query", rq.Qname); err == nil && e.tail.n-before != 1 {
 						violate(res, "gate|default|denied-cached|"+strings.Join(cc.AccessList, ","),
 							fmt.Sprintf("after a denied query for %s a later lookup did not reach the resolver (tail ran %d times): the denied query left cache state", rq.Qname, e.tail.n-before),
@@ -1013,8 +1092,8 @@ func runDefaultConfig(res *vh.Result, in *gateInput, cn *conc, cc *concCfg, case
 					}
 				}
 				// once per denied source class: questions chaos / as112 / blocklist / cache answer on their own
-				if !deniedSeen[o.Req.Src+o.Req.Born] {
-					deniedSeen[o.Req.Src+o.Req.Born] = true
+				if !deniedSeen[o.Req.Src+o.Req.Born+o.Req.Tr+o.Req.Port] {
+					deniedSeen[o.Req.Src+o.Req.Born+o.Req.Tr+o.Req.Port] = true
 					for _, b := range battery {
 						bq := rq
 						bq.Qname, bq.Qtype, bq.Class = b.name, b.qtype, b.class
@@ -1051,7 +1130,7 @@ func TestGateDefaultChain(t *testing.T) {
 	}
 	n := 0
 	for i, k := range keys {
-		cn := newConc(r)
+		cn := newConcFor(r, in.Family)
 		cc := cn.cfg(groups[k][0])
 		runDefaultConfig(res, &in, cn, &cc, groups[k], scratch, &n, i == 0)
 	}
@@ -1070,6 +1149,23 @@ func TestGateOne(t *testing.T) {
 	if rp.Level == "handlers" {
 		e := handlerEnv(&rp.Cfg, scratch)
 		judgeClient(res, e, &rp.Cfg, &rp.Req, nil, nil)
+		return
+	}
+	if rp.Level == "sockets" { // sentinel_test.go: the running UDP / TCP listeners
+		_ = os.MkdirAll(filepath.Join(scratch, "c17-blocklists"), 0o755)
+		se, err := newSockEnv(&rp.Cfg, scratch)
+		if err != nil {
+			res.Skip("server: %v", err)
+			return
+		}
+		defer se.stop()
+		for _, w := range rp.Warm {
+			_, _ = se.internal("query", w)
+		}
+		if rp.Req.ID == 0 {
+			rp.Req.ID = 0x2001
+		}
+		judgeSocket(res, se, &rp.Cfg, &rp.Req, nil)
 		return
 	}
 	e := defaultEnv(&rp.Cfg, scratch)
